@@ -115,90 +115,91 @@ def rule_agnostic(chk, prog):
   chk.at_least(rule, 10)
 
 
-def role_of(node, parents, f):
-  p = parents.get(id(node))
-  chain = []
-  cur = node
-  while p is not None and not isinstance(p, (ast.FunctionDef, ast.Lambda, ast.ClassDef)):
-    chain.append((p, cur))
-    cur = p
-    p = parents.get(id(p))
-  for par, child in chain:
-    if isinstance(par, (ast.If, ast.IfExp)) and child is par.test:
-      return 'test'
-    if isinstance(par, ast.BoolOp) and any(isinstance(pp, (ast.If, ast.IfExp)) and (c_ is pp.test) for pp, c_ in chain):
-      return 'test'
-    if isinstance(par, ast.keyword):
-      return f'kw:{par.arg}'
-    if isinstance(par, ast.Assign) and len(par.targets) == 1 and isinstance(par.targets[0], ast.Name):
-      tgt = par.targets[0].id
-      if tgt == 'einsum_args':
-        return 'einsum_args'
-      if f.name in ('nodal_shape', 'modal_shape'):
-        return 'shape'
-      return f'assign:{tgt}'
-    if isinstance(par, ast.Call) and unparse(par.func) == 'object.__setattr__':
-      return 'init'
-  if f.name == '__post_init__':
-    return 'init'
-  return 'other'
-
-
 def rule_options(chk, prog):
+  """Tuning options reach only places that cannot change values: sinks are classified on the evaluated values
+  (sa/flow.py), so aliases, temporaries, keyword / positional spelling and statement order do not matter."""
+  from sa import flow
   rule = 'C09.4-options-cannot-change-values'
   c = prog.cls(f'{SH}.FastSphericalHarmonics')
-  seen = {o: {} for o in OPTIONS}
-  for f in all_functions(prog):
-    parents = {}
-    for node in ast.walk(f.node):
-      for ch in ast.iter_child_nodes(node):
-        parents[id(ch)] = node
-    for node in ast.walk(f.node):
-      if isinstance(node, ast.Attribute) and node.attr in OPTIONS and isinstance(node.ctx, ast.Load):
-        r = role_of(node, parents, f)
-        seen[node.attr].setdefault(f.qualname.replace(f'dinosaur.{SH}.', ''), set()).add((r, node.lineno))
-  for opt, allowed in OPTIONS.items():
-    for fq, roles in sorted(seen[opt].items()):
-      for r, line in sorted(roles):
-        f = prog.funcs.get(f'dinosaur.{SH}.{fq}')
-        ok = fq in allowed and r in allowed[fq]
-        chk.check(ok, rule, f'{SH}.{fq}: reads `{opt}` as {r}', f'line {line}', (f.file if f else '?', line), f'one of {sorted(allowed.get(fq, []))} in {sorted(allowed)}', f'{r} in {fq}')
-    missing = [fq for fq in allowed if fq not in seen[opt]]
-    chk.check(not missing, rule, f'`{opt}` is consumed where the implementation expects it', f'not read in {missing}' if missing else f'read in {sorted(seen[opt])}', (c.file, c.lineno))
-  # einsum_args tuple is (reverse_einsum_arg_order, transform_precision) and is forwarded after the mesh
+  TEST = ('test',)
+  opt = lambda name: (lambda t: t.k == 'attr' and t.a[1] == name and t.a[0].k == 'sym' and t.a[0].a[0].startswith('self:'))
+  par = lambda name: (lambda t: t == Term('sym', name))
+
+  def check_sinks(site, f, label, got, allowed, required=True):
+    got = {g for g in got if g != ('root',)}
+    extra = sorted(str(g) for g in got - allowed)
+    ok = not extra and (bool(got) or not required)
+    chk.check(ok, rule, f'{site}: `{label}` reaches only {sorted(str(a) for a in allowed)}', f'sinks: {sorted(str(g) for g in got)}', (f.file, f.lineno),
+              str(sorted(str(a) for a in allowed)), f'also reaches {extra}' if extra else 'not consumed at all')
+
+  # 1. transform / inverse_transform: precision hint and argument order are handed to _transform_einsum under their own
+  #    parameters; the stacking flag only selects between the two (equivalent) contraction arms
+  SHAPES = {f'{SH}.FastSphericalHarmonics.{n}' for n in ('nodal_shape', 'modal_shape', 'nodal_padding', 'modal_padding')}
   for mname in ('transform', 'inverse_transform'):
     f = c.find_method(mname)
-    tuples = [st for st in ast.walk(f.node) if isinstance(st, ast.Assign) and isinstance(st.targets[0], ast.Name) and st.targets[0].id == 'einsum_args']
-    ok = len(tuples) == 1 and unparse(tuples[0].value) == '(self.reverse_einsum_arg_order, self.transform_precision)'
-    chk.check(ok, rule, f'{SH}.FastSphericalHarmonics.{mname}: einsum_args = (reverse_einsum_arg_order, transform_precision)', unparse(tuples[0].value) if tuples else 'missing', (f.file, f.lineno))
-  # inside _transform_einsum the two parameters only reach their keyword
-  f = prog.func(f'{SH}._transform_einsum')
-  parents = {}
-  for node in ast.walk(f.node):
-    for ch in ast.iter_child_nodes(node):
-      parents[id(ch)] = node
-  for pname, want in (('reverse_einsum_arg_order', {'kw:reverse_arg_order'}), ('precision', {'kw:precision'})):
-    roles = {role_of(n_, parents, f) for n_ in ast.walk(f.node) if isinstance(n_, ast.Name) and n_.id == pname and isinstance(n_.ctx, ast.Load)}
-    chk.check(roles and roles <= want, rule, f'{SH}._transform_einsum: parameter `{pname}` only reaches {sorted(want)}', str(sorted(roles)), (f.file, f.lineno), str(sorted(want)), str(sorted(roles)))
-  # sharded_einsum / collectives: reverse_arg_order selects the einsum flavour only; precision is a keyword only
-  for fq, pname, want in ((f'{JU}.sharded_einsum', 'reverse_arg_order', {'kw:reverse_arg_order'}), (f'{JU}.sharded_einsum', 'precision', {'kw:precision'}),
-                          (f'{JU}._allgather_matmul_twoway', 'reverse_arg_order', {'test'}), (f'{JU}._matmul_reducescatter_twoway', 'reverse_arg_order', {'test'}),
-                          (f'{JU}._allgather_matmul_twoway', 'precision', {'kw:precision'}), (f'{JU}._matmul_reducescatter_twoway', 'precision', {'kw:precision'})):
+    ev = sym.Evaluator(prog, sym.Options(opaque={f'{SH}._transform_einsum'} | SHAPES))
+    v, _, env = ev.run(f)
+    vals = [v] + [c_ for _, c_, _ in ev.calls if isinstance(c_, Term)]
+    site = f'{SH}.FastSphericalHarmonics.{mname}'
+    check_sinks(site, f, 'reverse_einsum_arg_order', flow.sinks(vals, opt('reverse_einsum_arg_order')), {('arg', '_transform_einsum', 'reverse_einsum_arg_order')})
+    check_sinks(site, f, 'transform_precision', flow.sinks(vals, opt('transform_precision')), {('arg', '_transform_einsum', 'precision')})
+    check_sinks(site, f, 'stacked_fourier_transforms', flow.sinks(vals, opt('stacked_fourier_transforms')), {TEST})
+    check_sinks(site, f, 'base_shape_multiple', flow.sinks(vals, opt('base_shape_multiple')), set(), required=False)
+  # 2. the other value-producing members never read precision / order; stacking only as a layout selector; the shape multiple only in shapes
+  for mname in ('basis', 'mask', 'modal_axes', 'nodal_axes', 'longitudinal_derivative', 'modal_limits', 'nodal_limits'):
+    f = c.find_method(mname)
+    if f is None:
+      continue
+    ev = sym.Evaluator(prog, sym.Options(opaque=SHAPES))
+    v, _, env = ev.run(f)
+    site = f'{SH}.FastSphericalHarmonics.{mname}'
+    for o in ('reverse_einsum_arg_order', 'transform_precision', 'base_shape_multiple'):
+      check_sinks(site, f, o, flow.sinks([v], opt(o)), set(), required=False)
+    check_sinks(site, f, 'stacked_fourier_transforms', flow.sinks([v], opt('stacked_fourier_transforms')), {TEST}, required=(mname == 'basis'))
+  for mname in ('nodal_shape', 'modal_shape'):
+    f = c.find_method(mname)
+    v, _, env = sym.Evaluator(prog).run(f)
+    got = flow.sinks([v], opt('base_shape_multiple'))
+    chk.check(bool(got), rule, f'{SH}.FastSphericalHarmonics.{mname}: the shape multiple is consumed by the padded shape', str(sorted(str(g) for g in got)), (f.file, f.lineno))
+    for o in ('reverse_einsum_arg_order', 'transform_precision', 'stacked_fourier_transforms'):
+      check_sinks(f'{SH}.FastSphericalHarmonics.{mname}', f, o, flow.sinks([v], opt(o)), set(), required=False)
+  # 3. nobody else reads the options (who-may-read over every function of the package)
+  allowed_readers = {f'dinosaur.{SH}.FastSphericalHarmonics.{n}' for n in ('__post_init__', 'transform', 'inverse_transform', 'basis', 'nodal_shape', 'modal_shape')}
+  readers = {}
+  for f in all_functions(prog):
+    for node in ast.walk(f.node):
+      if isinstance(node, ast.Attribute) and node.attr in OPTIONS and isinstance(node.ctx, ast.Load):
+        readers.setdefault(f.qualname, set()).add(node.attr)
+  for q, opts in sorted(readers.items()):
+    f = prog.funcs[q]
+    chk.check(q in allowed_readers, rule, f'{q.replace("dinosaur.", "")}: reads the tuning option(s) {sorted(opts)}', '', (f.file, f.lineno), f'only {sorted(x.rsplit(".", 1)[-1] for x in allowed_readers)} read them', q)
+  # 4. inside _transform_einsum / sharded_einsum / the collectives the two parameters reach their keyword (or a branch selector) only
+  table = (
+      (f'{SH}._transform_einsum', {f'{JU}.sharded_einsum'}, 'reverse_einsum_arg_order', {('arg', 'sharded_einsum', 'reverse_arg_order')}),
+      (f'{SH}._transform_einsum', {f'{JU}.sharded_einsum'}, 'precision', {('arg', 'sharded_einsum', 'precision'), ('arg', 'einsum', 'precision')}),
+      (f'{JU}.sharded_einsum', None, 'reverse_arg_order', {('arg', '_allgather_matmul_twoway', 'reverse_arg_order'), ('arg', '_matmul_reducescatter_twoway', 'reverse_arg_order')}),
+      (f'{JU}.sharded_einsum', None, 'precision', {('arg', '_allgather_matmul_twoway', 'precision'), ('arg', '_matmul_reducescatter_twoway', 'precision'), ('arg', 'einsum', 'precision')}),
+      (f'{JU}._allgather_matmul_twoway', None, 'reverse_arg_order', {TEST}),
+      (f'{JU}._matmul_reducescatter_twoway', None, 'reverse_arg_order', {TEST}),
+      (f'{JU}._allgather_matmul_twoway', None, 'precision', {('arg', 'φ-selected callee', 'precision'), ('arg', '_reversed_arg_order_einsum', 'precision'), ('arg', 'einsum', 'precision')}),
+      (f'{JU}._matmul_reducescatter_twoway', None, 'precision', {('arg', 'φ-selected callee', 'precision'), ('arg', '_reversed_arg_order_einsum', 'precision'), ('arg', 'einsum', 'precision')}),
+  )
+  coll = {f'{JU}._allgather_matmul_twoway', f'{JU}._matmul_reducescatter_twoway', f'{JU}._reversed_arg_order_einsum'}
+  for fq, opq, pname, allowed in table:
     g = prog.func(fq)
-    parents = {}
-    for node in ast.walk(g.node):
-      for ch in ast.iter_child_nodes(node):
-        parents[id(ch)] = node
-    roles = {role_of(n_, parents, g) for n_ in ast.walk(g.node) if isinstance(n_, ast.Name) and n_.id == pname and isinstance(n_.ctx, ast.Load)}
-    chk.check(bool(roles) and roles <= want, rule, f'{fq}: `{pname}` only reaches {sorted(want)}', str(sorted(roles)), (g.file, g.lineno), str(sorted(want)), str(sorted(roles)))
+    ev = sym.Evaluator(prog, sym.Options(opaque=opq)) if opq is not None else sym.Evaluator(prog, sym.Options(std_opaque=False, opaque=coll))
+    v, _, env = ev.run(g)
+    vals = [v] + [x for n_, x in env.items() if isinstance(x, Term) and n_ != pname] + [c_ for _, c_, _ in ev.calls if isinstance(c_, Term)]
+    check_sinks(fq, g, pname, flow.sinks(vals, par(pname)), allowed)
   # the selected flavours are einsum and the operand+subscript swapped einsum
   ev = sym.Evaluator(prog, sym.Options(std_opaque=False, opaque={f'{JU}._reversed_arg_order_einsum'}))
   g = prog.func(f'{JU}._allgather_matmul_twoway')
   v, ctx, env = ev.run(g)
-  mm = env.get('matmul')
-  ok = (mm is not None and mm.k == 'partial' and mm.a[0].k == 'phi' and mm.a[0].a[0] == Term('sym', 'reverse_arg_order')
+  parts = [t for x in [v] + [y for y in env.values() if isinstance(y, Term)] for t in sym.walk(x) if t.k == 'partial' and t.a[0].k == 'phi']
+  mm = parts[0] if parts else None
+  ok = (mm is not None and len(set(parts)) == 1 and mm.a[0].a[0] == Term('sym', 'reverse_arg_order')
         and mm.a[0].a[1] == Term('func', f'dinosaur.{JU}._reversed_arg_order_einsum') and mm.a[0].a[2] == Term('ext', 'jax.numpy.einsum')
-        and mm.a[1] == (Term('sym', 'einsum_spec'),) and util.call_kwargs(mm) == {'precision': Term('sym', 'precision')})
+        and mm.a[1] == (Term('sym', 'einsum_spec'),) and dict(mm.a[2]) == {'precision': Term('sym', 'precision')})
   chk.check(ok, rule, f'{JU}._allgather_matmul_twoway: both flavours are partial(·, einsum_spec, precision=precision) of einsum / _reversed_arg_order_einsum', sym.show(mm)[:200] if mm is not None else 'missing', (g.file, g.lineno))
   chk.at_least(rule, 24)
 
